@@ -479,6 +479,20 @@ def check(run):
     run.floor('well-formed classes x (validator, repairer)', wellformed_accepted(run, m, F, E), 18)
     pairs = conv.discover(m, F, run, 'R01.1')
     run.floor('convert loops (flow)', flows(run, m, F, pairs) + conv.ODD[0], 12)
+    # R01.4 for the converters: every class of well-formed units (and of the forms the library tolerates) is accepted by every
+    # converter in every mode and advances the output alike - the accept-class obligations of C02 R02.2, owned here as well because
+    # a converter that rejects or substitutes well-formed text breaks the round trip whatever the validation policy says
+    sub = type(run)(run.prop, run.tier)
+    c02.policy(sub, m, F, E, pairs)
+    accept_names = set(c['name'] for mk in c02.CLASSES.values() for c in mk() if c['expect'] == 'accept')
+    k = 0
+    for o in sub.obs:
+        if o['rule'] == 'R02.2' and (o.get('disc') or '').split(' / ')[0] in accept_names:
+            o = dict(o)
+            o['rule'] = 'R01.4'
+            run.obs.append(o)
+            k += 1
+    run.floor('converter x well-formed class x mode', k, 100)
     run.floor('forwarding overloads', forwarders(run, m, F), 20)
     # measure helpers agree with the encoders on widths: covered by C03 R03.2; mode independence by C02 R02.2
     for o in [o for o in run.obs if o['rule'] == 'R01.1'][:4] + [o for o in run.obs if o['rule'] == 'R01.2'][:2]:
